@@ -23,6 +23,11 @@ with open(os.path.join(VERIF, "seeded", "README.md"), "w") as f:
     f.write("| change | property | confirmed | what it does | needs | caught by |\n|---|---|---|---|---|---|\n")
     for r in rows:
         f.write("| %s | %s | %s | %s | %s | %s |\n" % r)
-    hit = sum(1 for r in rows if "MISSED" not in r[5] and r[5])
-    f.write("\n%d of %d changes are caught by the quick check of their property (after the generator improvements listed in DESIGN.md section 9).\n" % (hit, len(rows)))
+    def parts(r):
+        return [x.strip() for x in r[5].split("; ") if x.strip()]
+    own = sum(1 for r in rows if any(x.startswith(r[1] + ":") and "MISSED" not in x for x in parts(r)))
+    other = sum(1 for r in rows if not any(x.startswith(r[1] + ":") and "MISSED" not in x for x in parts(r)) and any("MISSED" not in x for x in parts(r)))
+    none = [r[0] for r in rows if not any("MISSED" not in x for x in parts(r))]
+    f.write("\n%d changes; %d are caught by the quick check of the property they were written against, %d more by the quick check of another property "
+            "(listed in their row), %d by none (%s) — after the generator improvements listed in DESIGN.md section 9.\n" % (len(rows), own, other, len(none), ", ".join(none)))
 print(open(os.path.join(VERIF, "seeded", "README.md")).read()[-300:])
